@@ -1,6 +1,7 @@
 
 #include "coloquinte.hpp"
 
+#include <algorithm>
 #include <boost/polygon/polygon.hpp>
 #include <cassert>
 #include <iomanip>
@@ -41,6 +42,12 @@ void Circuit::addNet(const std::vector<int> &cells,
     throw std::runtime_error("Inconsistent number of pins for the net");
   }
   checkNotInUse();
+  for (int c : cells) {
+    if (c < 0 || c >= nbCells()) {
+      throw std::runtime_error(
+          "Net pin refers to a cell that is not in the circuit");
+    }
+  }
   if (cells.empty()) {
     return;
   }
@@ -57,12 +64,26 @@ void Circuit::setNets(const std::vector<int> &limits,
                       const std::vector<int> &yOffsets,
                       const std::vector<float> &weights) {
   checkNotInUse();
-  assert(!limits.empty());
-  assert(limits.front() == 0);
-  assert(limits.back() == (int)cells.size());
-  assert(limits.back() == (int)xOffsets.size());
-  assert(limits.back() == (int)yOffsets.size());
-  assert(limits.size() == weights.size() + 1 || weights.empty());
+  if (limits.empty() || limits.front() != 0 ||
+      !std::is_sorted(limits.begin(), limits.end())) {
+    throw std::runtime_error(
+        "Net limits must start at 0 and be sorted in increasing order");
+  }
+  if (limits.back() != (int)cells.size() ||
+      limits.back() != (int)xOffsets.size() ||
+      limits.back() != (int)yOffsets.size()) {
+    throw std::runtime_error("Inconsistent number of pins for the nets");
+  }
+  if (limits.size() != weights.size() + 1 && !weights.empty()) {
+    throw std::runtime_error(
+        "Number of weights is not the same as the number of nets");
+  }
+  for (int c : cells) {
+    if (c < 0 || c >= nbCells()) {
+      throw std::runtime_error(
+          "Net pin refers to a cell that is not in the circuit");
+    }
+  }
   netLimits_ = limits;
   pinCells_ = cells;
   pinXOffsets_ = xOffsets;
